@@ -14,7 +14,7 @@ different registries, or a child kept after `remove()` while `labels()` re-creat
 and overwrite each other's writes: `two_objects_lose_updates` shows M doing exactly that (3 increments, cell = 2), as the
 real code does.  `writes_only_own_files` and `rebinding_reads_current` need no such assumption.
 -/
-import PromVerif.Lemmas.MultiprocessHistory
+import PromVerif.Lemmas.MultiprocessDisk
 
 namespace PromVerif.Props.C09
 open PromVerif.Py PromVerif.Generated.Multiprocess
@@ -133,6 +133,83 @@ theorem conservation_partial (vo : VOps V) (hcomm : ∀ a b, vo.add a b = vo.add
   rw [conservation_general_partial vo hcomm hassoc pid0 ops pre k pids hnd hpids hids huniq hinc, aggSum_zeros vo hzero]
   rfl
 
+/-! ### several worker generations on one directory: death, `mark_process_dead`, pid reuse
+
+World histories (`Model.Values.Ev`): `op` = a call of the acting worker, `spawn p` = a NEW worker (fresh closure) with
+identity `p` on the directory as it is — also how a pid is reused —, `dead p` = `mark_process_dead(p)`. -/
+
+/-- **dead_removes_only_live_files.**  `mark_process_dead(q)` removes exactly the files `gauge_<live mode>_<q>.db`; every
+    other file — every counter, summary, histogram and non-live gauge file of the dead identity included — keeps its
+    content, and so does every cell. -/
+theorem dead_removes_only_live_files (vo : VOps V) (q : Str) (disk : List (Str × Store V)) (fn : Str) (k : Key) :
+    (AL.get? (deadDisk q disk) fn = if isLiveFileOf q fn = true then none else AL.get? disk fn) ∧
+    (cellVal vo (deadDisk q disk) fn k = if isLiveFileOf q fn = true then (vo.zero, vo.zero) else cellVal vo disk fn k) :=
+  ⟨file_deadDisk q disk fn, cellVal_deadDisk vo q disk fn k⟩
+
+/-- a live-gauge file of `q` belongs to identity `q` only: the death of `q` touches no other identity's file -/
+theorem dead_touches_own_identity_only (q pre p : Str) (hq : '_' ∉ q) (hp : '_' ∉ p) (hne : p ≠ q) :
+    isLiveFileOf q (fileName pre p) = false := by
+  cases h : isLiveFileOf q (fileName pre p) with
+  | false => rfl
+  | true => exact absurd (isLiveFileOf_fileName q pre p hq hp h) hne
+
+/-- **world_cell** (`_partial`: `hu` = at every point the acting worker has one live value object per (prefix, key)).
+    After ANY world history from an empty directory — any number of worker generations, identity changes, deaths and
+    pid reuses — identity `p`'s entry of series `(pre, k)` is the fold over the world log of: the updates issued under
+    `p` by whichever generation (increments add, sets replace), and the deaths of `p`, which reset the entry exactly
+    when the file is a live-gauge file.  Hence: counters of a dead identity are still there; its live gauges are gone;
+    a new worker that reuses the pid continues every non-live entry from what the file holds. -/
+theorem world_cell_partial (vo : VOps V) (p0 : Str) (hp0 : '_' ∉ p0) (evs : List (Ev V)) (hev : evsIdOK evs)
+    (hu : WUniq vo (St.init p0) evs) (pre : Str) (k : Key) (p : Str) (hp : '_' ∉ p) :
+    cellVal vo (wrun vo (St.init p0) evs).disk (fileName pre p) k
+      = (wLog vo pre k p0 p0 [] evs).foldl (wOwnStep vo (isLiveFileOf p (fileName pre p)) p) (vo.zero, vo.zero) :=
+  wrun_cell vo pre k p hp evs (St.init p0) (inv_init vo p0) ⟨hp0, hp0⟩ hev hu
+
+/-- **reuse_continues** (`_partial` as above): when a new worker is spawned — with a fresh or a REUSED pid, after a
+    `mark_process_dead` or not — every entry evolves from what the directory holds at that moment by the new worker's
+    own updates; nothing is reset by the restart itself. -/
+theorem reuse_continues_partial (vo : VOps V) (p0 : Str) (hp0 : '_' ∉ p0) (a b : List (Ev V)) (q : Str)
+    (hev : evsIdOK (a ++ Ev.spawn q :: b)) (hu : WUniq vo (St.init p0) (a ++ Ev.spawn q :: b))
+    (pre : Str) (k : Key) (p : Str) (hp : '_' ∉ p) :
+    cellVal vo (wrun vo (St.init p0) (a ++ Ev.spawn q :: b)).disk (fileName pre p) k
+      = (wLog vo pre k q q [] b).foldl (wOwnStep vo (isLiveFileOf p (fileName pre p)) p)
+          (cellVal vo (wrun vo (St.init p0) a).disk (fileName pre p) k) := by
+  rw [wrun_append, wrun_cons]
+  have hua := wuniq_append vo a (Ev.spawn q :: b) (St.init p0) hu
+  have heva : evsIdOK a := fun e he => hev e (List.mem_append_left _ he)
+  have hevb : evsIdOK b := fun e he => hev e (List.mem_append_right _ (List.mem_cons_of_mem _ he))
+  have hq : '_' ∉ q := hev (Ev.spawn q) (List.mem_append_right _ List.mem_cons_self)
+  have hinv := wrun_inv vo a (St.init p0) (inv_init vo p0) ⟨hp0, hp0⟩ heva hua.1
+  have hs : Inv vo (wstep vo (wrun vo (St.init p0) a) (Ev.spawn q)).1 :=
+    wstep_inv vo _ _ hinv.1 hinv.2 hq hua.2.1
+  exact wrun_cell vo pre k p hp b _ hs ⟨hq, hq⟩ hevb hua.2.2
+
+/-- **conservation_world** (`_partial` as above): for a series whose file is NOT a live-gauge file (every counter,
+    summary and histogram series; non-live gauges), the sum over all identities' files equals the sum of all
+    increments ever issued by all worker generations — deaths, `mark_process_dead` and pid reuse change nothing — in a
+    commutative monoid, provided the series is only incremented. -/
+theorem conservation_world_partial (vo : VOps V) (hcomm : ∀ a b, vo.add a b = vo.add b a)
+    (hassoc : ∀ a b c, vo.add (vo.add a b) c = vo.add a (vo.add b c)) (hzero : ∀ a, vo.add vo.zero a = a)
+    (p0 : Str) (hp0 : '_' ∉ p0) (evs : List (Ev V)) (hev : evsIdOK evs) (hu : WUniq vo (St.init p0) evs)
+    (pre : Str) (k : Key) (pids : List Str) (hnd : pids.Nodup) (hpids : ∀ p ∈ pids, '_' ∉ p)
+    (hlive : ∀ p ∈ pids, isLiveFileOf p (fileName pre p) = false)
+    (hinc : ∀ u ∈ wUpds (wLog vo pre k p0 p0 [] evs), ∃ q a, u = Upd.inc q a ∧ q ∈ pids) :
+    aggSum vo (pids.map (fun p => (cellVal vo (wrun vo (St.init p0) evs).disk (fileName pre p) k).1))
+      = incTotal vo (wUpds (wLog vo pre k p0 p0 [] evs)) := by
+  have hcell : pids.map (fun p => (cellVal vo (wrun vo (St.init p0) evs).disk (fileName pre p) k).1)
+      = pids.map (fun p => ((wUpds (wLog vo pre k p0 p0 [] evs)).foldl (ownStep vo p) (vo.zero, vo.zero)).1) := by
+    apply List.map_congr_left
+    intro p hp
+    rw [world_cell_partial vo p0 hp0 evs hev hu pre k p (hpids p hp), hlive p hp, foldl_wOwn_nonlive]
+  rw [hcell]
+  have := sum_ownCells vo hcomm hassoc pids hnd _ hinc (fun _ => (vo.zero, vo.zero))
+  unfold aggSum
+  rw [this]
+  have hz := aggSum_zeros vo hzero pids
+  unfold aggSum at hz
+  rw [hz]
+  rfl
+
 /-! ### non-vacuity and the counter-example behind `huniq` -/
 
 /-- `Int` as value type: a commutative monoid with a strict order -/
@@ -194,6 +271,48 @@ example : cellVal intOps (run intOps (St.init "1".toList) demoOps).disk (fileNam
 /-- a state in which `rebinding_reads_current` applies (identity changed, next call pending) -/
 example : (run intOps (St.init "1".toList) (demoOps.take 7)).pid ≠ (run intOps (St.init "1".toList) (demoOps.take 7)).actual := by
   decide
+
+/-- a world history: worker 1 (pid 5) counts 2 and sets a livesum and a sum gauge, dies, is marked dead; a NEW worker reuses
+    pid 5, counts 3 more and increments both gauges by 1 -/
+def pLive : Params := ⟨"gauge".toList, "gl".toList, "gl".toList, [], [], "help".toList, "livesum".toList⟩
+def pSum : Params := ⟨"gauge".toList, "gs".toList, "gs".toList, [], [], "help".toList, "sum".toList⟩
+def demoWorld : List (Ev Int) :=
+  [.op (.construct pCounter), .op (.inc 0 2), .op (.construct pLive), .op (.set 1 10 none), .op (.construct pSum),
+   .op (.set 2 20 none), .dead "5".toList, .spawn "5".toList,
+   .op (.construct pCounter), .op (.inc 0 3), .op (.construct pLive), .op (.inc 1 1), .op (.construct pSum), .op (.inc 2 1)]
+
+theorem demoWorld_ids : evsIdOK demoWorld := by
+  intro e he
+  simp only [demoWorld, List.mem_cons, List.not_mem_nil, or_false] at he
+  rcases he with h | h | h | h | h | h | h | h | h | h | h | h | h | h <;> subst h <;>
+    first | trivial | (show '_' ∉ _; decide)
+
+/-- executable form of `WUniq` -/
+def wUniqB : St Int → List (Ev Int) → Bool
+  | _, [] => true
+  | st, e :: r => decide (((wstep intOps st e).1.values.map (fun v => idOf v.params)).Nodup) && wUniqB (wstep intOps st e).1 r
+
+theorem wUniqB_sound (evs : List (Ev Int)) (st : St Int) (h : wUniqB st evs = true) : WUniq intOps st evs := by
+  induction evs generalizing st with
+  | nil => trivial
+  | cons e r ih =>
+    simp only [wUniqB, Bool.and_eq_true, decide_eq_true_eq] at h
+    exact ⟨h.1, ih _ h.2⟩
+
+theorem demoWorld_uniq : WUniq intOps (St.init "5".toList) demoWorld := wUniqB_sound _ _ (by decide)
+
+/-- the hypotheses of `world_cell_partial` are satisfiable, and on this history: the counter of the dead-and-reused
+    identity holds 2 + 3; the live gauge restarted from zero (0 + 1); the non-live gauge continued (20 + 1) -/
+example : cellVal intOps (wrun intOps (St.init "5".toList) demoWorld).disk (fileName "counter".toList "5".toList) (mmapKey pCounter)
+    = (wLog intOps "counter".toList (mmapKey pCounter) "5".toList "5".toList [] demoWorld).foldl
+        (wOwnStep intOps (isLiveFileOf "5".toList (fileName "counter".toList "5".toList)) "5".toList) (0, 0) :=
+  world_cell_partial intOps "5".toList (by decide) demoWorld demoWorld_ids demoWorld_uniq _ _ _ (by decide)
+example : cellVal intOps (wrun intOps (St.init "5".toList) demoWorld).disk (fileName "counter".toList "5".toList) (mmapKey pCounter)
+    = (5, 0) := by decide
+example : cellVal intOps (wrun intOps (St.init "5".toList) demoWorld).disk (fileName "gauge_livesum".toList "5".toList) (mmapKey pLive)
+    = (1, 0) := by decide
+example : cellVal intOps (wrun intOps (St.init "5".toList) demoWorld).disk (fileName "gauge_sum".toList "5".toList) (mmapKey pSum)
+    = (21, 0) := by decide
 
 /-- **the counter-example behind `huniq`** (M exhibits the candidate finding): two live value objects on one key, three
     increments issued, the file holds 2 -/
